@@ -72,6 +72,11 @@ def generate_manifest_entries(out, topdir):
             else:
                 if f in ('timestamp', 'timestamp.chk', 'timestamp.commit',
                         'timestamp.x'):
+                    # the file is left out, so it needs to be IGNOREd
+                    # for the result to verify
+                    ie = 'IGNORE {}'.format(ep).encode('utf8')
+                    if ie not in out:
+                        out.append(ie)
                     continue
 
             out.append(get_manifest_entry(ftype, fp, ep))
